@@ -346,7 +346,7 @@ theorem take_succ_of_drop (b : Bytes) (n : Nat) (c : UInt8) (r : Bytes) (h : b.d
     have := List.getElem?_drop (xs := b) (i := n) (j := 0)
     rw [h] at this
     simpa using this.symm
-  rw [List.take_succ, this]; rfl
+  rw [List.take_add_one, this]; rfl
 
 theorem dead_next (s : St) (b : Bytes) (n : Nat) (h : Stops (run s (b.take n)) (b.drop n)) (hn : n < b.length) :
     run s (b.take (n + 1)) = .dead := by
@@ -397,5 +397,61 @@ theorem scan_unique (b : Bytes) (n : Nat) (hn : n ≤ b.length) (hacc : acc (run
 
 theorem good_class (s : St) (b : Bytes) (m : Nat) (e : Err) (h : Good s b m e) : e = .ok ∨ e = .eof ∨ e = .invalidChar := by
   cases e <;> simp_all [Good]
+
+end JsonV.Lemmas.WireNumber
+
+namespace JsonV.Lemmas.WireNumber
+open JsonV JsonV.Model.Wire JsonV.Spec.Grammar
+
+theorem frac_stop (st : Nat) (rest : Bytes)
+    (h : ∀ d r, rest = d :: r → (d != 0x2E && d != 0x65 && d != 0x45) = true) :
+    numFractional st rest = (0, st, .ok) := by
+  cases rest with
+  | nil => simp [numFractional, numExponent]
+  | cons d r =>
+    have := h d r rfl
+    simp only [Bool.and_eq_true, bne_iff_ne, ne_eq] at this
+    obtain ⟨⟨h1, h2⟩, h3⟩ := this
+    simp [numFractional, numExponent, h1, h2, h3]
+
+/-- the tail test of ConsumeSimpleNumber -/
+theorem simple_fin (n : Nat) (rest : Bytes) (h : simpleNumberFin n rest ≠ 0) :
+    simpleNumberFin n rest = n ∧ ∀ d r, rest = d :: r → (d != 0x2E && d != 0x65 && d != 0x45) = true := by
+  cases rest with
+  | nil => exact ⟨rfl, by intro d r h; cases h⟩
+  | cons d r =>
+    by_cases hc : (d != 0x2E && d != 0x65 && d != 0x45) = true
+    · refine ⟨by simp [simpleNumberFin, hc], ?_⟩
+      intro d' r' h'
+      simp only [List.cons.injEq] at h'
+      rw [← h'.1]; exact hc
+    · simp [simpleNumberFin, hc] at h
+
+theorem simple_number_sound' (b : Bytes) (hpos : consumeSimpleNumber b ≠ 0) :
+    consumeNumber b = (consumeSimpleNumber b, .ok) := by
+  rw [consumeNumber_eq]
+  cases b with
+  | nil => simp [consumeSimpleNumber] at hpos
+  | cons c r =>
+    by_cases hz : (c == 0x30) = true
+    · have hc : c = 0x30 := by simpa using hz
+      subst hc
+      simp only [consumeSimpleNumber, beq_self_eq_true, if_true] at hpos ⊢
+      obtain ⟨hval, hfin⟩ := simple_fin 1 r hpos
+      rw [hval]
+      have : ((0x30 : UInt8) == 0x2D) = false := by decide
+      simp [numInteger, this, frac_stop _ r hfin]
+    · by_cases h19 : isDigit19 c = true
+      · have hm : (c == 0x2D) = false := by
+          have h' := h19
+          rw [cls_d19] at h'
+          rw [cls_minus]
+          generalize cls c = k at h'
+          cases k <;> simp_all
+        simp only [consumeSimpleNumber, hz, h19, if_true, Bool.false_eq_true, if_false] at hpos ⊢
+        obtain ⟨hval, hfin⟩ := simple_fin (1 + digitRun r) (r.drop (digitRun r)) hpos
+        rw [hval]
+        simp [numInteger, hm, hz, h19, frac_stop _ _ hfin]
+      · simp [consumeSimpleNumber, hz, h19] at hpos
 
 end JsonV.Lemmas.WireNumber
